@@ -28,7 +28,7 @@ add("C09", ENGINE_W, "exploration", "refinement against an executable reference 
     "Operation-by-operation refinement of Witness.Update against the decision-table model; thorough enumerates the whole 0..17 cube x root x proof-kind space on fresh witnesses and then samples sizes to 2^63; schedule/fault dimensions are inert by design (weakest fit of the technique, said so in DESIGN.md).",
     BASE_NOTE, "DESIGN.md 5/C09")
 add("C20", ENGINE_W, "exploration", "deterministic simulation: conservation law over recorded histories (sequential, concurrent, faulty)",
-    "A recording metric factory observes seeded histories in sequential, concurrent (seeded scheduler) and fail-stop-fault batches; per run and log the four counters must equal the counts of actual outcomes, so a counter moved before the write or on a wrong path shows up when a Set fails or loses a race. Batches through the adapter (identical requests in flight, storage faults) and through the bastion endpoint. Thorough adds a free-running run under the race detector in which the production Prometheus backend must agree, per label, with the recording factory (not seed-replayable).",
+    "A recording metric factory observes seeded histories in sequential, concurrent (seeded scheduler) and fail-stop-fault batches; per run and log the four counters must equal the counts of actual outcomes, so a counter moved before the write or on a wrong path shows up when a Set fails or loses a race. Batches through the adapter (identical requests in flight, storage faults) and through the bastion endpoint. Both tiers end with a free-running run under the race detector (4 x 8 s quick, 4 x 60 s thorough) in which the production Prometheus backend must agree, per label, with the recording factory (sound, not seed-replayable).",
     BASE_NOTE, "DESIGN.md 5/C20, 12.5")
 
 add("C02", ENGINE_W, "exploration", "deterministic simulation: byzantine mutators over signed checkpoints, multi-log shared-key configurations, seeded races; authenticity invariant after every step",
